@@ -324,6 +324,9 @@ func c08Jobs(tier string) []string {
 	if tier == "thorough" {
 		cfgs = append(cfgs, "n=4,tail=7,ids=2", "n=3,tail=1,ids=2")
 	}
+	for i := 0; i < 4; i++ {
+		jobs = append(jobs, fmt.Sprintf("churn:%d/4", i))
+	}
 	for _, c := range cfgs {
 		sh := 8
 		for i := 0; i < sh; i++ {
@@ -333,8 +336,99 @@ func c08Jobs(tier string) []string {
 	return jobs
 }
 
+// c08Churn: long histories from non-initial states. One reassembly context with small memory
+// limits serves 60 datagrams one after the other (never more than one in flight, so nothing
+// may ever be evicted): every one must be handed up exactly when its last missing fragment
+// arrives. Every ordered pair of arrival patterns from the menu is alternated.
+var c08Patterns = [][][2]int{ // fragments as [from,to) in 8-byte units of a 4-unit datagram
+	{{0, 4}},
+	{{0, 2}, {2, 4}},
+	{{2, 4}, {0, 2}},
+	{{0, 1}, {1, 2}, {2, 3}, {3, 4}},
+	{{3, 4}, {2, 3}, {1, 2}, {0, 1}},
+	{{0, 2}, {0, 2}, {2, 4}},
+	{{2, 4}, {2, 4}, {0, 2}},
+	{{0, 3}, {1, 4}},
+	{{1, 4}, {0, 3}},
+	{{-1, 0}, {0, 2}, {2, 4}}, // a stale fragment of the same id, then the timeout, then the set
+}
+
+func c08Churn(i, n int, r *engine.Result) []engine.Violation {
+	var out []engine.Violation
+	k := 0
+	for a := range c08Patterns {
+		for b := range c08Patterns {
+			k++
+			if k%n != i {
+				continue
+			}
+			vtime.EnableVirtual()
+			f := fragmentation.NewFragmentation(256, 128, 30*time.Second)
+			var hist []string
+			fail := func(format string, args ...interface{}) {
+				if len(out) < 3 {
+					out = append(out, engine.Violation{Property: "C08", Kind: "reassembly", Key: "churn:" + strings.SplitN(format, " ", 3)[0], Detail: fmt.Sprintf("patterns %d/%d alternating, after %d datagrams: ", a, b, len(hist)) + fmt.Sprintf(format, args...), Replay: engine.MustJSON(map[string]interface{}{"churn": []int{a, b}})})
+				}
+			}
+		round:
+			for d := 0; d < 60; d++ {
+				pat := c08Patterns[a]
+				if d%2 == 1 {
+					pat = c08Patterns[b]
+				}
+				id := uint32(1 + d%3) // identifications are reused, as on a real path
+				content := c08Content(int(id)+d, 0, 32)
+				got := make([]bool, 4)
+				for _, fr := range pat {
+					if fr[0] < 0 {
+						f.Process(id, 8, 15, true, c08VV([]byte("stale!!!"), 0))
+						vtime.Advance(31 * time.Second)
+						continue
+					}
+					res, done := f.Process(id, uint16(fr[0]*8), uint16(fr[1]*8-1), fr[1] < 4, c08VV(content[fr[0]*8:fr[1]*8], 3))
+					r.Transitions++
+					for u := fr[0]; u < fr[1]; u++ {
+						got[u] = true
+					}
+					complete := got[0] && got[1] && got[2] && got[3]
+					switch {
+					case complete && !done:
+						fail("lost: the last missing fragment [%d,%d) arrived but nothing was handed up", fr[0]*8, fr[1]*8)
+						break round
+					case !complete && done:
+						fail("early: handed up before the set was complete")
+						break round
+					case done && !bytes.Equal(res.ToView(), content):
+						fail("payload: handed up %x, original %x", res.ToView(), content)
+						break round
+					}
+					if done {
+						got = make([]bool, 4)
+					}
+				}
+				hist = append(hist, fmt.Sprint(d))
+			}
+			r.Execs++
+			r.Nontrivial++
+		}
+	}
+	return out
+}
+
 func c08Run(job, tier string, deadline time.Time) *engine.Result {
 	r := &engine.Result{Exhaustive: true}
+	if strings.HasPrefix(job, "churn:") {
+		var i, n int
+		fmt.Sscanf(job, "churn:%d/%d", &i, &n)
+		r.Violations = c08Churn(i, n, r)
+		for k := range r.Violations {
+			r.Violations[k].Job = job
+		}
+		r.States = r.Execs + 1
+		r.Outcomes = []uint64{engine.Hash(job, len(r.Violations))}
+		r.Sample(map[string]interface{}{"churn": "60 datagrams in sequence on one context with limits 256/128, every ordered pair of 10 arrival patterns alternating"})
+		return r
+	}
 	if strings.HasPrefix(job, "coop:") {
 		p := c08Progs[job[5:]]
 		bound := -1
@@ -358,6 +452,18 @@ func c08Run(job, tier string, deadline time.Time) *engine.Result {
 }
 
 func c08Replay(rp json.RawMessage) *engine.Violation {
+	var ch struct {
+		Churn []int `json:"churn"`
+	}
+	if json.Unmarshal(rp, &ch) == nil && len(ch.Churn) == 2 {
+		// re-run exactly that pair
+		k := ch.Churn[0]*len(c08Patterns) + ch.Churn[1] + 1
+		n := len(c08Patterns)*len(c08Patterns) + 1
+		if vs := c08Churn(k%n, n, &engine.Result{}); len(vs) > 0 {
+			return &vs[0]
+		}
+		return nil
+	}
 	var sr engine.SeqReplay
 	if json.Unmarshal(rp, &sr) == nil && strings.HasPrefix(sr.Job, "seq:") {
 		return engine.ReplaySeq(c08SeqCfg(sr.Job, "quick", time.Time{}), sr.Ops)
